@@ -79,7 +79,8 @@ def extractSecrets (values : List (List Nat)) (required : List Secret) : Except 
 /-! ### swissnum -/
 
 /-- `swissnum_auth_header(swissnum)` (`.strip()` of a `b64encode` output is the identity) -/
-def authHeader (swissnum : Bytes) : Bytes := Http.authPrefix.toUTF8.toList ++ b64encode swissnum
+def authHeader (swissnum : Bytes) : Bytes :=
+  Http.authPrefix.toList.map (fun c => UInt8.ofNat c.toNat) ++ b64encode swissnum   -- the prefix is ASCII
 
 inductive AuthResult
   | ok
